@@ -33,6 +33,31 @@ Fixpoint regex_outside (a : anode) : bool :=
          else false)
   end.
 
+(* the identity codes of a document, computed once per case *)
+Fixpoint query_uses_hash (q : query) : bool :=
+  match q with
+  | QAncestor _ _ _ | QUnion _ _ => true
+  | QAttribute _ i | QChild _ i | QCachedChild _ i | QDescendant _ _ i | QFollowing _ _ i
+  | QPreceding _ _ i | QParent _ i | QSelf _ i | QDoD _ _ i | QGroup i | QReverse i
+  | QPosition i | QLast i | QLastFunc i | QFn1 _ i | QConcat i => query_uses_hash i
+  | QFilter _ a b | QFn2 _ a b | QArg a b | QLogical _ a b | QNumeric _ a b | QBoolean _ a b
+  | QMerge a b => orb (query_uses_hash a) (query_uses_hash b)
+  | QFn3 _ a b c => orb (query_uses_hash a) (orb (query_uses_hash b) (query_uses_hash c))
+  | _ => false
+  end.
+
+Definition hash_table (D : tree) : list (node * N) :=
+  map (fun n => (n, hash_code D n)) (all_nodes D).
+
+Fixpoint table_lookup (D : tree) (t : list (node * N)) (n : node) : N :=
+  match t with
+  | [] => hash_code D n
+  | (m, h) :: r => if node_eqb m n then h else table_lookup D r n
+  end.
+
+Definition table_for (q : query) (D : tree) : list (node * N) :=
+  if query_uses_hash q then hash_table D else [].
+
 Definition with_query (text : string) (ns : nsmap) (k : query -> string) : string :=
   match parse text ns with
   | Ok a =>
@@ -47,14 +72,24 @@ Definition with_query (text : string) (ns : nsmap) (k : query -> string) : strin
   end.
 
 Definition run_sel (D : tree) (has_ns : bool) (text : string) (ns : nsmap) (c : node) : string :=
-  with_query text ns (fun q =>
+  with_query text ns (fun q => let t := table_for q D in
     render_outcome (fun l => "N:" ++ addrs l)
-                   (select lit_match lit_numsubexp lit_replace_all D has_ns q c)).
+                   (select lit_match lit_numsubexp lit_replace_all (fun D' n => table_lookup D' t n) D has_ns q c)).
 
 Definition run_eval (D : tree) (has_ns : bool) (text : string) (ns : nsmap) (c : node) : string :=
-  with_query text ns (fun q =>
+  with_query text ns (fun q => let t := table_for q D in
     render_outcome render_value
-                   (evaluate lit_match lit_numsubexp lit_replace_all D has_ns q c)).
+                   (evaluate lit_match lit_numsubexp lit_replace_all (fun D' n => table_lookup D' t n) D has_ns q c)).
+
+Definition run_sel_all (D : tree) (has_ns : bool) (text : string) (ns : nsmap) : string :=
+  with_query text ns (fun q => let t := table_for q D in
+    join ";" (map (fun c => render_outcome (fun l => "N:" ++ addrs l)
+                     (select lit_match lit_numsubexp lit_replace_all (fun D' n => table_lookup D' t n) D has_ns q c)) (all_nodes D))).
+
+Definition run_eval_all (D : tree) (has_ns : bool) (text : string) (ns : nsmap) : string :=
+  with_query text ns (fun q => let t := table_for q D in
+    join ";" (map (fun c => render_outcome render_value
+                     (evaluate lit_match lit_numsubexp lit_replace_all (fun D' n => table_lookup D' t n) D has_ns q c)) (all_nodes D))).
 
 Definition run_compile (text : string) (ns : nsmap) : string :=
   if String.eqb text "" then "E:compile:empty" else with_query text ns (fun _ => "ok").
